@@ -9,6 +9,10 @@ CLAIMED = {
    technique="TLA+ spec (Xeh.tla compiler+VM vs Src.tla structural reference), TLC exhaustive enumeration of programs, replay of every behaviour on the real crate",
    text="TLC enumerates every program of six control-flow fragment grammars up to a phrase budget, checks on the design that the back-patching compiler + VM agree with a structural token-walking reference, and exports one predicted behaviour per program; each is replayed on the crate built from /repo and must give the predicted stack, variables, output, error class / failure point, or still be running at the instruction limit. Exhaustive inside the budget, nothing outside it.",
    note="Trusts TLC, the JSON export/replay plumbing and the harness's rendering of cells; the reference semantics (Src.tla) is the stated meaning of the source; integers stay below 2^30 in the model."),
+ "C02": dict(cat="model_checking", design="5/C02",
+   technique="TLA+ spec of the reverse log (Xeh.tla primitives, RNext), TLC over all Fwd/Back interleavings; recorded stepping traces of the real crate validated by TLC against Trace_ReverseObs",
+   text="TLC explores every interleaving of forward and backward steps of every generated program on the implementation-shaped design of the reverse log and checks that the machine state at a position is always the one first recorded there. The same programs plus seeded programs over the whole dictionary are stepped on the real crate under three schedules; TLC validates the recorded traces against an observational trace specification (k steps back = the state k steps earlier; replay reproduces). A corrupted event is shown to be rejected on every thorough run.",
+   note="Trusts the dump hook to render every component the property lists; a failed forward step is not a step (DESIGN 5.19); meter and stdout are outside the reversible state."),
 }
 
 PENDING_REASON = "check not built yet in this build session (planned, DESIGN.md section 12); no claim is made for it"
